@@ -25,6 +25,7 @@ def check(rep):
     n = PR.rule_key_order_independent(ctx)
     rep.floor("templates checked for set-order dependence", n, 180)
     PR.rule_key(ctx, rid="C01.KEY-NONE-IFF-NO-SPLITTERS", mode="none-iff")
+    PR.rule_locals_shadow_fields(ctx, "C01.FIELDS-NOT-SHADOWED", consequence="the key contains the repr of a function object, whose address differs from process to process")
     PR.rule_constant_skeleton(ctx, rid="C01.SKELETON-STATELESS")
     rep.assume("str() of str/int/float/bool/None is locale- and process-independent (CPython)")
     rep.assume("the sly runtime is excluded from the entropy rule: it iterates the `tokens` set and keys position maps by id() "
